@@ -42,12 +42,15 @@ class Args:
 class Ctx:
     """What a contract clause sees (see contract.py)."""
 
-    def __init__(self, ex, h0, h, a: Args, res=None, v=None, k=None, g=None, family="plain", exc=None, labels=None):
+    def __init__(self, ex, h0, h, a: Args, res=None, v=None, k=None, g=None, family="plain", exc=None, labels=None, T=None):
         self.ex, self.h0, self.h, self.a, self.res, self.v, self.k, self.g, self.family, self.exc = ex, h0, h, a, res, v, k, g or {}, family, exc
         self.labels = labels or {}
+        self._T = T
 
     @property
     def T(self):
+        if self._T is not None:
+            return self._T
         s = self.a.sv("self") if self.a.has("self") else None
         if s is None:
             return None
@@ -419,7 +422,8 @@ class CallMixin:
                 raise Unsupported(f"argument {name} of {short} has tag {bound[name].tag}/{bound[name].cls}, contract admits {alts} (line {line})")
         a = Args(bound)
         h0 = p.heap
-        x0 = Ctx(self, h0, h0, a, family=self.family)
+        Tn = self.normal_tree(bound, p)
+        x0 = Ctx(self, h0, h0, a, family=self.family, T=Tn)
         for rname, rfn in c.requires_:
             self.oblige(p, f"L{line}/call {short}/requires {rname}", rfn(x0), kind="pre")
         if c.reads_structure:
@@ -432,7 +436,7 @@ class CallMixin:
             if getattr(r, "havoc", None):
                 h1 = h0.havoc(r.havoc)
             q.heap = h1
-            x = Ctx(self, h0, h1, a, family=self.family)
+            x = Ctx(self, h0, h1, a, family=self.family, T=Tn)
             if r.when is not None:
                 q.assume(r.when(x))
             if r.ensures is not None:
@@ -446,7 +450,7 @@ class CallMixin:
         h1 = h0.havoc(c.modifies_) if c.modifies_ else h0
         q.heap = h1
         res = self.fresh_result(c, q, short)
-        x = Ctx(self, h0, h1, a, res=res, family=self.family)
+        x = Ctx(self, h0, h1, a, res=res, family=self.family, T=Tn)
         for r in c.raises_:
             if r.when is not None and r.must:
                 q.assume(Not(r.when(x0)))
@@ -458,6 +462,24 @@ class CallMixin:
         q.ghost.setdefault("calls", []).append((short, line, h0, h1, a, res))
         outs.append((q, res))
         return outs
+
+    def normal_tree(self, bound, p: Path):
+        """If the callee's tree provably is the tree of the function under verification, use
+        that very term, so that re-establishing wf at the call is syntactically trivial."""
+        s = bound.get("self")
+        T0 = getattr(self, "T_entry", None)
+        if s is None or s.tag != "ref" or T0 is None:
+            return None
+        t = s.z if s.cls == "Tree" else p.heap._tree(s.z)
+        if z3.eq(t, T0):
+            return T0
+        from . import solve
+
+        sol = solve.make_solver(p.conds, t == T0)
+        sol.set("rlimit", 2000000)
+        if sol.check() == z3.unsat:
+            return T0
+        return None
 
     def tag_ok(self, v: SV, alts) -> bool:
         for t in alts:
